@@ -32,6 +32,7 @@ impl RequestHandler<DocumentSymbolRequest> for DocumentSymbolRequestHandler {
                         codegen,
                         filename: file.file.name(),
                         recurse: false,
+                        import_stack: vec![],
                     };
                     let docsyms = emitter.emit_document_symbols(&file.tokens, None);
                     let document_symbols = docsyms
@@ -60,6 +61,7 @@ impl RequestHandler<WorkspaceSymbol> for WorkspaceSymbolHandler {
                         codegen,
                         filename: file.file.name(),
                         recurse: true,
+                        import_stack: vec![file.file.name()],
                     };
                     let docsyms = emitter.emit_document_symbols(&file.tokens, None);
                     let workspace_symbols = docsyms
@@ -131,6 +133,8 @@ struct DocSymEmitter<'a> {
     codegen: Arc<Mutex<CodegenContext>>,
     filename: &'a str,
     recurse: bool,
+    /// The files we are inside of (a file that imports itself, directly or not, is not followed again)
+    import_stack: Vec<&'a str>,
 }
 
 impl<'a> DocSymEmitter<'a> {
@@ -163,12 +167,19 @@ impl<'a> DocSymEmitter<'a> {
             } => {
                 let mut result = vec![];
                 if self.recurse {
-                    if let Some(file) = self.tree.try_get_file(&resolved_path) {
+                    if let Some(file) = self
+                        .tree
+                        .try_get_file(&resolved_path)
+                        .filter(|file| !self.import_stack.contains(&file.file.name()))
+                    {
+                        let mut import_stack = self.import_stack.clone();
+                        import_stack.push(file.file.name());
                         let emitter = DocSymEmitter {
                             tree: self.tree,
                             codegen: self.codegen.clone(),
                             filename: file.file.name(),
                             recurse: self.recurse,
+                            import_stack,
                         };
                         result.extend(emitter.emit_document_symbols(&file.tokens, None));
                     }
